@@ -580,7 +580,46 @@ def check_weights(ctx, R="C01.weights"):
         ctx.finding(R, dg, "DiscreteRange unweighted draw", "unweighted DiscreteRange does not draw random.randint(ceil(value[low]), floor(value[high]))")
 
 
+
+def check_soft_probability(ctx, R="C01.soft"):
+    ctx.rule(
+        R,
+        "the probability of a soft requirement reaches the run-time: the compiler's visit_Require passes `prob` on whenever the "
+        "statement has one -- the test is `is not None`, not truthiness: `require[0] C` has probability 0 (never enforced), which a "
+        "truthiness test would turn into a hard requirement",
+    )
+    model = ctx.model
+    fn = model.func("scenic.syntax.compiler", "ScenicToPythonTransformer.visit_Require")
+    npar = fn.args.args[1].arg
+    sites = []
+    for x in walk_local(fn):
+        if isinstance(x, ast.Dict) and any(isinstance(k, ast.Constant) and k.value == "prob" for k in x.keys):
+            sites.append(x)
+        if isinstance(x, ast.Assign) and any(isinstance(t, ast.Subscript) and lib.const(t.slice) == "prob" for t in x.targets):
+            sites.append(x)
+        if isinstance(x, ast.keyword) and x.arg == "prob":
+            sites.append(x.value)
+    if not sites:
+        raise AnalysisError("shape not recognised: where visit_Require passes the probability on")
+    probs = {npar + ".prob"} | set(lib.locals_assigned(fn, lambda v: unparse(v) == f"{npar}.prob"))
+    for site in sites:
+        conds = lib.flatten_conditions(lib.guard_tests(site, fn))
+        given = any(lib.holds(conds, f"{p} is not None") for p in probs)
+        truthy = [unparse(t) for t, pol in conds if pol and unparse(t) in probs]
+        if given and not truthy:
+            ctx.ok(R, site, "`prob` is passed on exactly when the statement gives one (`is not None`)")
+        else:
+            ctx.finding(
+                R,
+                site,
+                "soft-requirement probability passed on by truthiness",
+                f"visit_Require passes the probability on under {[('' if pol else 'not ') + unparse(t) for t, pol in conds] or 'no condition'}, not under `{npar}.prob is not None`: "
+                f"`require[0] C` (probability 0: never enforced) is compiled like a hard `require C`, so scenes violating C are no longer generated",
+            )
+
+
 def check(ctx):
+    ctx.run(check_soft_probability)
     ctx.run(check_draw_once)
     ctx.run(check_sample_memo)
     ctx.run(check_loop)
